@@ -4,6 +4,7 @@ package main
 // forall/exists/old/ite and spec functions) into SMT terms.
 
 import (
+	"go/printer"
 	"fmt"
 	"sort"
 	"go/ast"
@@ -43,6 +44,8 @@ type Scope struct {
 	mem          *Mem
 	oldMem       *Mem
 	loopEntryMem *Mem
+	loopEntryGh  *Ghost
+	addrOfLocal  func(name string) (*Term, *Term, bool) // region of an address-taken local variable
 	gh           *Ghost
 	oldGh        *Ghost
 	golookup     func(name string) (SV, bool)
@@ -173,6 +176,11 @@ func (e *Engine) evalDesignator(sc *Scope, ex ast.Expr, what string) designator 
 			return designator{ghost: id.Name[:len(id.Name)-3], lo: lo, n: n}
 		}
 	}
+	if id, ok := ex.(*ast.Ident); ok && sc.addrOfLocal != nil {
+		if lo, n, ok := sc.addrOfLocal(id.Name); ok {
+			return designator{lo: lo, n: n}
+		}
+	}
 	lo, n := e.evalRegion(sc, ex, what)
 	return designator{lo: lo, n: n}
 }
@@ -181,6 +189,11 @@ func (e *Engine) evalDesignator(sc *Scope, ex ast.Expr, what string) designator 
 func (e *Engine) evalRegion(sc *Scope, ex ast.Expr, what string) (*Term, *Term) {
 	sc.what = what
 	tb := e.tb
+	if id, ok := ex.(*ast.Ident); ok && sc.addrOfLocal != nil {
+		if lo, n, ok := sc.addrOfLocal(id.Name); ok {
+			return lo, n
+		}
+	}
 	var fieldLo, fieldN *Term
 	switch x := ex.(type) {
 	case *ast.StarExpr:
@@ -598,7 +611,7 @@ func (s *Scope) evalSelector(x *ast.SelectorExpr) SV {
 			}
 		}
 	}
-	s.fail("cannot select .%s", name)
+	s.fail("cannot select .%s of %s (kind %d, type %v)", name, exprString(x.X), base.k, base.gt)
 	return SV{}
 }
 
@@ -865,6 +878,9 @@ func (s *Scope) evalCall(x *ast.CallExpr) SV {
 		}
 		c := *s
 		c.mem = s.loopEntryMem
+		if s.loopEntryGh != nil {
+			c.gh = s.loopEntryGh
+		}
 		return c.eval(args[0])
 	case "len", "cap":
 		need(1)
@@ -1159,7 +1175,7 @@ func (s *Scope) evalCall(x *ast.CallExpr) SV {
 		if s.depth > 64 {
 			s.fail("spec recursion too deep (%s)", name)
 		}
-		c := &Scope{e: e, vars: map[string]SV{}, mem: s.mem, oldMem: s.oldMem, loopEntryMem: s.loopEntryMem, gh: s.gh, oldGh: s.oldGh, goal: s.goal, pkg: s.pkg, what: s.what + " / spec " + name, depth: s.depth + 1, instTerms: s.instTerms, qdepth: s.qdepth, extraInst: s.extraInst, qrec: s.qrec}
+		c := &Scope{e: e, vars: map[string]SV{}, mem: s.mem, oldMem: s.oldMem, loopEntryMem: s.loopEntryMem, loopEntryGh: s.loopEntryGh, gh: s.gh, oldGh: s.oldGh, goal: s.goal, pkg: s.pkg, what: s.what + " / spec " + name, depth: s.depth + 1, instTerms: s.instTerms, qdepth: s.qdepth, extraInst: s.extraInst, qrec: s.qrec}
 		for i, p := range sf.Params {
 			c.vars[p.Name] = s.coerceParam(s.eval(args[i]), p.Type, name+"."+p.Name)
 		}
@@ -1416,6 +1432,15 @@ func (f *Frame) scopeAt(st *execState, over map[ssa.Value]Val) *Scope {
 		}
 	}
 	sort.Slice(sc.instTerms, func(i, j int) bool { return sc.instTerms[i].id < sc.instTerms[j].id })
+	sc.addrOfLocal = func(name string) (*Term, *Term, bool) {
+		if a := f.addrNames[name]; a != nil {
+			if pv, ok := st.env[a]; ok {
+				et := a.Type().Underlying().(*types.Pointer).Elem()
+				return pv.(Scalar).T, e.tb.ConstU(uint64(sizes.Sizeof(et)), 64), true
+			}
+		}
+		return nil, nil, false
+	}
 	sc.golookup = func(name string) (SV, bool) {
 		if gv, ok := f.ghostVals[name]; ok {
 			return gv, true
@@ -1487,6 +1512,13 @@ func (f *Frame) scopeAt(st *execState, over map[ssa.Value]Val) *Scope {
 		for i, fv := range f.fn.FreeVars {
 			if fv.Name() == name {
 				return e.svOf(f.free[i], fv.Type()), true
+			}
+		}
+		// an address-taken local: its current contents
+		if a := f.addrNames[name]; a != nil {
+			if pv, ok := st.env[a]; ok {
+				et := a.Type().Underlying().(*types.Pointer).Elem()
+				return e.svOf(e.load(sc.mem, pv.(Scalar).T, et), et), true
 			}
 		}
 		cands := f.names[name]
@@ -1632,6 +1664,25 @@ func (e *Engine) goalDirectedInstances(o *Obligation, goalTerms []*Term) []*Term
 				}
 			}
 		}
+		// an address read in the goal, minus any one pointer-like summand of
+		// it, is the index of that byte in some buffer: data that was moved
+		// between buffers keeps its index even though the base changed
+		for _, a := range reads {
+			l := e.tb.toLin(a)
+			if len(l.atoms) < 2 || len(l.atoms) > 6 {
+				continue
+			}
+			for i, at := range l.atoms {
+				if l.coef[i].Cmp(bigOne) != 0 {
+					continue
+				}
+				k := e.tb.Sub(a, at)
+				if !seen[k] && !k.IsConst() && len(cands) < 40 {
+					seen[k] = true
+					cands = append(cands, k)
+				}
+			}
+		}
 		for _, it := range lh.inst {
 			for _, k := range []*Term{it, e.tb.Sub(it, e.tb.ConstU(1, 64)), e.tb.Add(it, e.tb.ConstU(1, 64))} {
 				if !seen[k] {
@@ -1668,4 +1719,10 @@ func (e *Engine) goalDirectedInstances(o *Obligation, goalTerms []*Term) []*Term
 		}()
 	}
 	return out
+}
+
+func exprString(e ast.Expr) string {
+	var sb strings.Builder
+	printer.Fprint(&sb, token.NewFileSet(), e)
+	return sb.String()
 }
